@@ -43,6 +43,13 @@ fn check(css: &str) -> Option<(String, String)> {
             if rest.starts_with("/*") {
                 return Some((format!("entry at generated column {} points at source ({}, {}) = {:?}", tk.get_dst_col(), tk.get_src_line(), tk.get_src_col(), rest.chars().take(8).collect::<String>()), "the start of a token, not a comment".into()));
             }
+            // a rewritten token (prefixed class, converted rpx length) carries the ORIGINAL spelling as its name: the
+            // source text at the mapped position starts with it
+            if let Some(name) = tk.get_name() {
+                if !rest.starts_with(name) {
+                    return Some((format!("entry at generated column {} has name {:?} but the source at ({}, {}) reads {:?}", tk.get_dst_col(), name, tk.get_src_line(), tk.get_src_col(), rest.chars().take(12).collect::<String>()), "a name that is the source spelling of the token".into()));
+                }
+            }
         }
     }
     None
